@@ -50,3 +50,27 @@ CORPUS = [
     M("n-eq-swapped", C, '            if token["udpId"] == udpid:', '            if udpid == token["udpId"]:', "S"),
     M("n-hoist-entry", C, '                return token["token"], token["key"]', '                tk, ky = token["token"], token["key"]\n                return tk, ky', "S"),
 ]
+# round 4 (C19.d): the byte-order loop written with a result flag / prepared candidates
+_TAIL = """            try:
+                await dev.authenticate(token, key)
+                return True
+            except AuthenticationError:
+                continue
+
+        return False
+"""
+CORPUS += [
+    M("flag-form-success-not-final", D, _TAIL, """            try:
+                await dev.authenticate(token, key)
+            except AuthenticationError:
+                continue
+
+            authenticated = True
+
+        return authenticated
+""".replace("            try:", "            authenticated = False\n            try:", 1)),
+    M("candidates-big-only", D, "        for endian in [\"little\", \"big\"]:\n            udpid = Security.udpid(\n                dev.id.to_bytes(6, endian)).hex()  # type: ignore\n",
+      "        for endian, udpid in [(o, Security.udpid(dev.id.to_bytes(6, \"big\")).hex()) for o in (\"little\", \"big\")]:\n"),
+    M("n-candidates-prepared", D, "        for endian in [\"little\", \"big\"]:\n            udpid = Security.udpid(\n                dev.id.to_bytes(6, endian)).hex()  # type: ignore\n",
+      "        for endian, udpid in [(o, Security.udpid(dev.id.to_bytes(6, o)).hex()) for o in (\"little\", \"big\")]:\n", "S"),
+]
